@@ -20,6 +20,7 @@ RULE = ("requests = notification shapes {2.0 without id, id null, id ''; 1.0 id 
         "_notify over a loopback transport. distinct = distinct (configuration, body); non-trivial = the body holds at "
         "least one notification entry and both monitors (response alignment, probe-invocation accounting after the "
         "pool drained) ran.")
+RULE += (" " + 'Also: positional params reaching the dispatcher as a tuple (twin of the same notification with a list); a method raising an exception whose text cannot be produced; the notification pool stopped while notifications execute, restarted, then lone notifications.')
 ASSUMPTIONS = [
     "a notification is a valid request whose id is absent, null or ''",
     "pooled executions are compared as multisets after the pool drained (bounded-progress wait), inline ones in order",
